@@ -2062,6 +2062,77 @@ fn boundary_finding(family: &str, _n: usize) -> Option<&'static str> {
     }
 }
 
+/// Functions with `d` default arguments per level, `k` closures nested in them, `c` captured locals, reading an id
+/// that is NOT capturable when the functions are created (it only exists as an export made later, by another function,
+/// through a map inserted into the exports, or is a prelude name), then CALLED. Every frame on the way down must be created
+/// with the module's non-locals (Function flag NON_LOCAL_ACCESS = accessed_non_locals > captures; defaults do not count);
+/// otherwise the VM raises its internal UnexpectedError when the inner closure is created, or the lookup fails.
+/// (label, program, expected worker reply)
+fn nonlocal_grid() -> Vec<(String, String, String)> {
+    let mut v = vec![];
+    for d in 0..=3usize {
+        for k in 1..=3usize {
+            for (c, wher) in [(0usize, "all"), (2, "all"), (0, "outer"), (1, "outer"), (0, "inner"), (2, "inner"), (1, "middle")] {
+                if d == 0 && wher != "all" {
+                    continue;
+                }
+                // which levels have the default arguments: an outer function with defaults around closures without is
+                // the shape in which a wrong flag on the outer function surfaces as UnexpectedError
+                let dl = |lvl: usize| -> usize {
+                    match wher {
+                        "all" => d,
+                        "outer" => if lvl == 0 { d } else { 0 },
+                        "inner" => if lvl == k { d } else { 0 },
+                        _ => if lvl != 0 && lvl != k { d } else { 0 },
+                    }
+                };
+                for (kind, late_def, late_use, late_val) in [
+                    ("export-later", "export late = 10\n", "late", 10i64),
+                    ("export-by-function", "setter = || export late = 10\nsetter()\n", "late", 10),
+                    ("export-map", "export {late: 10}\n", "late", 10),
+                    ("prelude", "", "size([7, 8, 9])", 3),
+                ] {
+                    let mut p = String::new();
+                    let mut sum: i64 = 5 + late_val;
+                    for i in 0..c {
+                        p += &format!("c{} = {}\n", i, 100 * (i + 1));
+                        sum += 100 * (i as i64 + 1);
+                    }
+                    let defaults = |lvl: usize| -> Vec<String> { (0..dl(lvl)).map(|i| format!("a{}_{} = {}", lvl, i, i + 1)).collect() };
+                    let mut terms: Vec<String> = vec!["x".into(), late_use.to_string()];
+                    for i in 0..c {
+                        terms.push(format!("c{}", i));
+                    }
+                    for lvl in 0..=k {
+                        for i in 0..dl(lvl) {
+                            terms.push(format!("a{}_{}", lvl, i));
+                            sum += i as i64 + 1;
+                        }
+                    }
+                    // level 0 = make, levels 1..k-1 intermediate, level k innermost (takes x first)
+                    for lvl in 0..=k {
+                        let ind = "  ".repeat(lvl);
+                        let mut args = defaults(lvl);
+                        if lvl == k {
+                            args.insert(0, "x".into());
+                        }
+                        let name = if lvl == 0 { "make".to_string() } else { format!("f{}", lvl) };
+                        p += &format!("{}{} = |{}|\n", ind, name, args.join(", "));
+                    }
+                    p += &format!("{}{}\n", "  ".repeat(k + 1), terms.join(" + "));
+                    for lvl in (1..=k).rev() {
+                        p += &format!("{}f{}\n", "  ".repeat(lvl), lvl);
+                    }
+                    p += late_def;
+                    p += &format!("make(){}(5)\n", "()".repeat(k - 1));
+                    v.push((format!("nonlocal-grid:{}:d{}{}k{}c{}", kind, d, wher, k, c), p, format!("value i{}", sum)));
+                }
+            }
+        }
+    }
+    v
+}
+
 /// Must-pass behavioural cases of repaired findings: (name, program, canonical value of the program).
 fn behaviour_cases() -> Vec<(&'static str, String, String)> {
     let s = |x: &str| format!("value s{}", kvh::hex(x.as_bytes()));
@@ -2316,6 +2387,25 @@ fn real_main() -> i32 {
     run_batch(&mut cx, &mut batch);
 
     cx.rep.note(format!("phase allocator done at {:.1}s", t0.elapsed().as_secs_f64()));
+    // 4a. functions with defaults x nested closures x captures reading late non-locals, called
+    for (label, prog, expect) in nonlocal_grid() {
+        cx.submit(&label, &prog, false);
+        let got = match cx.worker.request(&format!("v {}", kvh::hex(prog.as_bytes())), Duration::from_secs(20)) {
+            Reply::Ok(s) => s,
+            Reply::Timeout => "timeout".into(),
+            Reply::Died(x) => format!("died {}", x),
+        };
+        cx.rep.case(&label, true);
+        if got != expect {
+            let internal = got.starts_with("error an_unexpected_error") || got.starts_with("panic");
+            cx.rep.violation("D", if internal { "C05:internal-fault-at-run-time" } else { "C05:nonlocal-grid" }, json!({"case": label, "program": prog,
+                "input_hex": kvh::hex(prog.as_bytes()), "expected": expect, "observed": got,
+                "note": "a called closure nested in functions with default arguments does not see a non-local that is available when it runs"}));
+        } else {
+            cx.rep.bump("nonlocal-grid=ok");
+        }
+    }
+    cx.flush();
     // 4b. behavioural must-pass cases of the repaired findings
     for (name, prog, expect) in behaviour_cases() {
         cx.submit(&format!("behaviour:{}", name), &prog, false);
